@@ -212,7 +212,8 @@ func explore(args []string) {
 		return
 	}
 	load := func() (derive.Program, error) {
-		return derive.NewPlugins(allPlugins(), autoname, dedup).Load(derive.ImportPaths(paths))
+		// MCRT_PLUGINPREFIX carries -pluginprefix overrides (k=v,...)
+		return derive.NewPlugins(ordered("", os.Getenv("MCRT_PLUGINPREFIX")), autoname, dedup).Load(derive.ImportPaths(paths))
 	}
 	if abs, err := filepath.EvalSymlinks(root); err == nil {
 		mcrt.Scope = abs
